@@ -35,6 +35,10 @@ const ADM_F: Profile = Profile {
     name: "ADM",
     faults: true,
 };
+const AUTH: Profile = Profile {
+    name: "AUTH",
+    faults: false,
+};
 const PAUSE: Profile = Profile {
     name: "PAUSE",
     faults: false,
@@ -166,11 +170,19 @@ pub fn plan(id: &str) -> Option<Plan> {
             thorough_runs: 40_000,
             rule: "seeded runs of the administrator / pause profiles interleaved with market activity (operator churn; fault-free and fault-injecting halves); one evaluation = one pause/unpause instruction classified by PanicState region (flag, counters, position of now relative to start+1800 and last_reset+86400, boundaries included) x result; canary deposits executed on forks at cached expiry -1/0 and now+3600; distinct = instruction x region x result",
         },
+        "C08" => Plan {
+            id: "C08",
+            level: "fault_enumeration",
+            profiles: vec![AUTH],
+            quick_runs: 400,
+            thorough_runs: 8_000,
+            rule: "two-group worlds running market, transaction-shape and administrator activity; for each sampled accepted transaction (<= 60 per run, biased to instruction kinds not yet swept) EVERY single mutation is executed on a fork: each role-signer slot unsigned and re-signed by every identity in the world, each bound slot replaced by each applicable foreign twin (other group/bank/vault/authority PDA, byte-identical clone owned by another program, clone at a wrong address, wrong account type, other token program, fake sysvar, other stored destination); one evaluation = one mutation; distinct = ix kind x slot x mutation kind x verdict",
+        },
         _ => return None,
     })
 }
 
-pub const ALL: &[&str] = &["C01", "C02", "C03", "C04", "C05", "C06", "C07", "C10", "C11", "C12", "C13", "C14", "C15", "C16", "C17"];
+pub const ALL: &[&str] = &["C01", "C02", "C03", "C04", "C05", "C06", "C07", "C08", "C10", "C11", "C12", "C13", "C14", "C15", "C16", "C17"];
 
 pub const ASSUMPTIONS: &[&str] = &[
     "native x86-64 build of the program (same Rust source, overflow-checks on) instead of SBF; compute-unit, heap and stack limits are not modelled",
